@@ -48,7 +48,7 @@ def main(tier, only=None):
         if r0[1] != 'ok':
             ck.violation('%s/k0' % name, {'base': name, 'parts': [], 'result': r0[1:], 'what': 'pristine corpus image: e2fsck -fn / xck disagree'})
             continue
-        singles = fsweep.mutant_list(name)
+        singles = fsweep.mutant_list(name, settle=True)
         jobs = [(mid, name, [(off, size, v, seal)]) for mid, off, size, v, seal in singles]
         res = pmap(pipeline, jobs, chunksize=16)
         acc = 0; reps = {}
@@ -85,7 +85,7 @@ def main(tier, only=None):
         if ck.expired():
             ck.add(exhaustive=False); break
     ck.add(evaluations=total, distinct_nontrivial=accepted, states=total, transitions=total, traces_validated_against_impl=total,
-           rule='same mutant space as C01; each mutant: e2fsck -fn, and if it exits 0 the independent checker xck.check (groups R,A,L,S,K) must find nothing; '
+           rule='same mutant space as C01 plus, for every block pointer of an inode or mapping block, a "+settle" variant in which the independent reader recomputes block bitmaps, free counts, i_blocks and checksums around the new pointer (so that only the range/ownership invariant is broken); each mutant: e2fsck -fn, and if it exits 0 the independent checker xck.check (groups R,A,L,S,K) must find nothing; '
                 'distinct_nontrivial = mutants that e2fsck accepted (only those exercise the oracle)', samples=sample[:6])
     ck.cov['bases'] = per
     ck.assumptions += ['xck (tools/xck, written from the format description, cross-validated against e2fsck on the repo\'s f_* images by tools/xck_calibrate.py) is the trusted oracle',
